@@ -136,6 +136,8 @@ pub struct HybridRunner {
     nv: u64,
     truth: BTreeMap<u64, u64>,
     seen_done: BTreeSet<usize>,
+    /// handles returned by inserts that the driver keeps ("ins_h") until "drop_h"
+    held: Vec<foyer::HybridCacheEntry<u64, HVal, TableHashBuilder>>,
 }
 
 fn loc_of(s: &str) -> Location {
@@ -293,6 +295,7 @@ impl HybridRunner {
             nv: 0,
             truth: BTreeMap::new(),
             seen_done: BTreeSet::new(),
+            held: vec![],
         })
     }
 
@@ -447,6 +450,7 @@ impl HybridRunner {
             return Ok(0);
         }
         if a == "reopen" {
+            self.held.clear();
             drop(self.cache.take());
             self.turn();
             self.switch.off();
@@ -468,6 +472,20 @@ impl HybridRunner {
                 };
                 let _g = self.rt.enter();
                 drop(cache.insert_with_properties(k, val, self.props(k)));
+            }
+            // insert keeping the returned handle until "drop_h"
+            "ins_h" => {
+                self.nv += 1;
+                let v = self.nv;
+                self.truth.insert(k, v);
+                let val = self.val(k, v);
+                let _g = self.rt.enter();
+                let h = cache.insert_with_properties(k, val, self.props(k));
+                self.held.push(h);
+            }
+            "drop_h" => {
+                let _g = self.rt.enter();
+                self.held.clear();
             }
             "rem" => {
                 self.truth.remove(&k);
